@@ -420,17 +420,28 @@ func runC06(r *mc.Run) {
 		r.SetBudget(300 * 1e9)
 	}
 	r.Bounds["depth_blocks"] = depth
-	r.Rule = "tree search over block histories of the real application with queue-filling events (1/3 new block hashes, gap and rewrite batches, 9 deposits, 1+1 deposits, a batch listing one deposit twice, an approval listing one id twice, 9 withdrawals + 3 undecodable, process 9, finalize, 17 claims + 17 unlocks, failing execution-block message, 2 abandoned PrepareProposal rounds, restart); a reference ledger of owed items is compared with the system transactions of every finalised payload (FIFO per kind, caps, consecutive nonces, nothing dropped/duplicated/invented); every trace is drained with empty blocks; at every node with non-empty dues 9 mutations of the leading system transactions must be rejected by ProcessProposal and fail in FinalizeBlock"
+	r.Rule = "tree search over block histories of the real application with queue-filling events (1/3 new block hashes, gap and rewrite batches, 9 deposits, 1+1 deposits, a batch listing one deposit twice, an approval listing one id twice, 9 withdrawals + 3 undecodable, process 9, finalize, 17 claims + 17 unlocks, failing execution-block message, 2 abandoned PrepareProposal rounds, restart); a second root with 101 blocks voted at genesis and the deposit made by a mature coinbase in the menu; a reference ledger of owed items is compared with the system transactions of every finalised payload (FIFO per kind, caps, consecutive nonces, nothing dropped/duplicated/invented); every trace is drained with empty blocks; at every node with non-empty dues 9 mutations of the leading system transactions must be rejected by ProcessProposal and fail in FinalizeBlock"
 	r.Assumptions = []string{"single validator = proposer of every block", "unlock amounts 1 wei, withdrawals 100000 sat paid 90000"}
 	var explore func(r *mc.Run, only []enga.ABlock)
 	explore = func(r *mc.Run, only []enga.ABlock) {
 		root, err := enga.NewWorld(engaCfg())
+		menu := c06Menu(r.Thorough())
+		if c06Root == "101-blocks-voted-at-genesis" {
+			// a second root: the 101 reference blocks above the genesis tip are voted already, so the
+			// coinbase of the lowest one (whose second output is a deposit) is mature from the start
+			if err == nil {
+				root.Close()
+			}
+			root, err = enga.NewWorldPrevoted(engaCfg(), 101)
+			ev := func(es ...enga.Event) enga.ABlock { return enga.ABlock{Events: es} }
+			menu = []enga.ABlock{{}, ev(enga.Event{Kind: "tx:deposits", N: 1, Var: "mature-coinbase"}), ev(enga.Event{Kind: "tx:hashes", N: 1}),
+				ev(enga.Event{Kind: "tx:deposits", N: 2}), ev(enga.Event{Kind: "tx:hashes", N: 1}, enga.Event{Kind: "tx:deposits", N: 1, Var: "mature-coinbase"})}
+		}
 		if err != nil {
 			panic(err)
 		}
 		defer root.Close()
 		root.Aux = newLedger(root.BtcTip())
-		menu := c06Menu(r.Thorough())
 		t := &enga.Tree{Run: r, Depth: depth,
 			Menu: func(w *enga.World, path []enga.ABlock) []enga.ABlock { return menu },
 			Pre: func(w *enga.World) any {
@@ -447,7 +458,11 @@ func runC06(r *mc.Run) {
 					if i := bytes.IndexByte([]byte(b), ':'); i > 0 {
 						cls = b[:i]
 					}
-					r.Violate(mc.Violation{Class: cls, Msg: b + fmt.Sprintf(" | history %v", aPath(path)), Detail: engaDetail{Path: path}}, nil)
+					var det any = engaDetail{Path: path}
+					if c06Root != "" {
+						det = map[string]any{"root": c06Root, "path": path} // not replayable on the default root: no tree re-check
+					}
+					r.Violate(mc.Violation{Class: cls, Msg: b + fmt.Sprintf(" | history %v %s", aPath(path), c06Root), Detail: det}, nil)
 				}
 				if res.Err != nil {
 					viol(fmt.Sprintf("honest-block-fails:%s: %v", res.Stage, res.Err))
@@ -526,7 +541,11 @@ func runC06(r *mc.Run) {
 		}
 		t.Only = only
 		t.Explore(root)
-		r.Sample(map[string]any{"history": aPath([]enga.ABlock{menu[2], menu[5], menu[10]}), "mutations_per_node": 9})
+		if c06Root == "" {
+			r.Sample(map[string]any{"history": aPath([]enga.ABlock{menu[2], menu[5], menu[10]}), "mutations_per_node": 9})
+		} else {
+			r.Sample(map[string]any{"root": c06Root, "menu": aPath(menu)})
+		}
 	}
 	treeRecheck(r, explore)
 	if js := os.Getenv("VERIF_C06_ONLY"); js != "" {
@@ -537,7 +556,13 @@ func runC06(r *mc.Run) {
 		return
 	}
 	explore(r, nil)
+	c06Root = "101-blocks-voted-at-genesis"
+	explore(r, nil)
+	c06Root = ""
 }
+
+// c06Root names the root the tree is explored from when it is not the default genesis.
+var c06Root string
 
 func replayC06(detail json.RawMessage) (bool, string) {
 	return false, "re-run bin/check C06 quick; the artefact lists the history"
